@@ -91,9 +91,18 @@ class TableEval:
                 else:
                     raise AnalysisError(f"non-literal string option {norm_src(e)} in {unit.relpath}")
             return frozenset(out)
+        if isinstance(node, ast.Dict):
+            # iterating / converting a dict yields its keys
+            if all(isinstance(k, ast.Constant) and isinstance(k.value, str) for k in node.keys):
+                return frozenset(k.value for k in node.keys)
+            raise AnalysisError(f"dict with non-literal keys {norm_src(node)[:80]} in {unit.relpath}")
         if isinstance(node, ast.Call) and isinstance(node.func, ast.Name) and node.func.id in ("set", "list", "tuple", "frozenset", "sorted") \
                 and len(node.args) == 1:
             return self.str_set(node.args[0], unit)
+        if isinstance(node, ast.Call) and isinstance(node.func, ast.Attribute) and node.func.attr == "keys" and not node.args:
+            return self.str_set(node.func.value, unit)
+        if isinstance(node, ast.Starred):
+            return self.str_set(node.value, unit)
         if isinstance(node, ast.BinOp) and isinstance(node.op, (ast.Add, ast.BitOr)):
             return self.str_set(node.left, unit) | self.str_set(node.right, unit)
         if isinstance(node, ast.Name):
